@@ -209,7 +209,7 @@ def step(ctx, case):
             return wl.Arg.Null()
         return ctx.choose([wl.Arg.Fd(3), wl.Arg.Float(1.5), wl.Arg.Array(), wl.Arg.String('s')], 'other%d' % ai)
     args = tuple(mk(ai, k) for ai, k in enumerate(kinds))
-    msg = wl.Message(now, wl.UnresolvedObject(tgt, tgt_type if tgt_hinted else None), sent, 'x' if name == 'other' else name, args)
+    msg = wl.Message(now, wl.UnresolvedObject(tgt, tgt_type if tgt_hinted else None), sent, ['destroy', 'release', 'x'][len(kinds) % 3] if name == 'other' else name, args)    # no message name but delete_id (and bind's typing) means anything to the table: not `destroy`, not `release`
     n_before = len(conn.message_list)
     conn.message(msg)
 
